@@ -7,7 +7,7 @@ from .state import State, Outcome, Hazard, Obligation
 from . import spec as S
 from .expr import MUTATORS
 
-UNCATCHABLE = {"Requires", "LoopInv", "Decreases", "Unsupported"}
+UNCATCHABLE = {"Requires", "LoopInv", "Decreases", "Unsupported", "InvalidValueStored"}
 
 EXC_PARENTS = {
     "KeyError": ["LookupError", "Exception"],
